@@ -506,11 +506,11 @@ func genC06(o *vcoq.Out, r *vcoq.Rand, tier string) error {
 	o.CaseType = "c06case"
 	o.Judge = "judge"
 	o.Shard = 120
-	o.Rule = "random messages of TestAllTypes (all field kinds, depth <= 2) and traits Brightness, AirTemperature, ElectricMode built by reflection from tiny value alphabets; read masks by class: nil, empty, single, multi (2-5 paths), duplicate, parent+child, child+parent, siblings, through-repeated-message (75% of paths walk POPULATED fields so projections are non-empty); a malformed stream with one corrupted path per mask (unknown segment, continuation through scalar / map / repeated scalar / repeated message, empty segment) alone or next to valid paths. Each (message, mask) is read by FilterClone (+Validate) and, for a third of them, also by Filter, Value.Get, Collection.List and the seed of Value.Pull. Event path: 45 backpressured streams per run (Collection.Pull + PullID over Add, Update, Delete, and with WithInclude an Update that stops matching; Value.Pull over seed + 2 Sets) with a read mask: the new AND old value of every event is judged against the projection of what the writes returned as stored. Non-trivial: non-empty mask on a non-empty message; distinct by the full case term."
+	o.Rule = "random messages of TestAllTypes (all field kinds, depth <= 2) and traits Brightness, AirTemperature, ElectricMode built by reflection from tiny value alphabets; read masks by class: nil, empty, single, multi (2-5 paths), duplicate, parent+child, child+parent, siblings, prefix-named siblings, through-repeated-message, family (a parent path + 0..3 paths below it at any depth, duplicates, shuffled), chain (p / p.a / p.a.b, shuffled) - the last two read by EVERY consumer (75% of paths walk POPULATED fields so projections are non-empty); a malformed stream with one corrupted path per mask (unknown segment, continuation through scalar / map / repeated scalar / repeated message, empty segment) alone or next to valid paths. Each (message, mask) is read by FilterClone (+Validate) and, for a third of them, also by Filter, Value.Get, Collection.List and the seed of Value.Pull. Event path: 45 backpressured streams per run (Collection.Pull + PullID over Add, Update, Delete, and with WithInclude an Update that stops matching; Value.Pull over seed + 2 Sets) with a read mask: the new AND old value of every event is judged against the projection of what the writes returned as stored. Every FilterClone also yields an aliasing observation (message-struct pointers shared with the message passed in, same root) judged against the ownership model. Fixed: nil / typed-nil messages and messages with unknown fields (no panic, source untouched). Non-trivial: non-empty mask on a non-empty message; distinct by the full case term."
 	g := &c06{o: o, r: r}
 	scale := 1
 	if tier == "thorough" {
-		scale = 15
+		scale = 10 // 15 took 13-14 min with the machine loaded by other checks; keep headroom under 15 min
 	}
 	classes := []string{"nil", "empty", "single", "single", "multi", "multi", "duplicate", "parent+child", "parent+child",
 		"child+parent", "child+parent", "siblings", "through-repeated-message", "prefix-named-siblings", "prefix-named-siblings",
